@@ -222,7 +222,12 @@ class tensorflow_backend:
             # Use a tensor attribute that isn't meaningless when eager execution is enabled
             tensor.device
         except AttributeError:
-            tensor = tf.convert_to_tensor(tensor_in)
+            try:
+                # convert straight to the requested dtype: Python floats would otherwise
+                # pass through float32 and lose precision before the cast below
+                tensor = tf.convert_to_tensor(tensor_in, dtype=dtype)
+            except (TypeError, ValueError):
+                tensor = tf.convert_to_tensor(tensor_in)
         if tensor.dtype is not dtype:
             tensor = tf.cast(tensor, dtype)
         return tensor
